@@ -632,8 +632,16 @@ func (c *compiler) applyDeviation(m *Mod, d *Deviation) {
 			}
 			p := tgt.Parent
 			switch {
-			case p.Input == tgt, p.Output == tgt:
-				c.conflict("deviation %s: not-supported on rpc input/output", stepsString(d.Target))
+			case p.Input == tgt:
+				if !c.ignoreNS {
+					p.Input = nil
+					tgt.Removed = true
+				}
+			case p.Output == tgt:
+				if !c.ignoreNS {
+					p.Output = nil
+					tgt.Removed = true
+				}
 			default:
 				if p.Kids[tgt.Name] != tgt {
 					c.conflict("deviation %s: target already removed", stepsString(d.Target))
